@@ -278,6 +278,7 @@ class Program:
         unrename.apply({m: t[3] for m, t in parsed.items()}, self.renames)
         self.inlined_constants = unrename.inline_new_constants({m: t[3] for m, t in parsed.items()}, PKG) \
             if os.environ.get("SA_NO_UNRENAME") != "1" else []
+        unrename.lower_idioms({m: t[3] for m, t in parsed.items()})
         for mod, (path, rel, src, tree) in parsed.items():
             self.modules[mod] = Module(mod, path, rel, src, tree)
             self.modules[mod].program = self
